@@ -9,11 +9,12 @@
    predecessor ends.  All theorems hold for every arithmetic mode [fp] (IEEE rounding as the Rust
    code computes, or exact dyadic arithmetic), every resolution >= 1, every items_per_slot and
    value lists of any length. *)
-From BT Require Import Base.Util Base.Float Generated.Consts Model.RTree Model.BBIFile Model.BigWigWrite Model.BBIRead
+From BT Require Import Base.Util Base.LE Base.Float Generated.Consts Model.RTree Model.BBIFile Model.BigWigWrite Model.BBIRead
   Proofs.RTreeAbs Proofs.RTreeBuild Proofs.RTreeCodec Proofs.RTreeLayout
   Proofs.BigWigQuery Proofs.ZoomLoop Proofs.ZoomInv Proofs.ZoomThms Proofs.ZoomBwLevels Proofs.ZoomSections
   Proofs.ZoomQuery Proofs.ZoomOld Proofs.ZoomExact Proofs.ZoomSorted
-  Proofs.BigWigFile Proofs.BigWigFileRoundTrip Proofs.BigWigFileThms Proofs.ZoomFile.
+  Proofs.BigWigFile Proofs.BigWigFileRoundTrip Proofs.BigWigFileThms Proofs.ZoomFile
+  Proofs.FileRegions Proofs.ZoomReadCodec Proofs.ZoomReadRegions Proofs.ZoomReadFile.
 From Coq Require Import Sorting.Sorted.
 Local Open Scope N_scope.
 
@@ -201,6 +202,105 @@ Theorem C07_level_sections_sorted : forall fp size (chs : list (N * list (list z
 Proof. exact level_sections_sorted. Qed.
 Print Assumptions C07_level_sections_sorted.
 
+(* ---- reading the zoom records back from the bytes of the WHOLE written file ---- *)
+
+(* the f32 bit pattern the encoder produces always fits the 4-byte field (every value, every
+   arithmetic mode, also a rounding that carries into 2^24, overflow to infinity, NaN): nothing is
+   truncated when a statistic is stored *)
+Theorem C07_f32_pattern_fits : forall x, bits_of_f32 x < 4294967296.
+Proof. exact bits_of_f32_lt. Qed.
+Print Assumptions C07_f32_pattern_fits.
+
+(* zoom record codec: parse_zrecs (get_zoom_block_values' decoding loop) on the bytes
+   encode_zoom_section writes returns [zrec_read fp z] for each record z: chromosome, start, end and
+   covered bases as written, item count 0 (not stored in the file), and every statistic x as
+   [stat_read fp x = f32_of_bits (bits_of_f32 (to_f32 fp x))], the value of the f32 pattern of the
+   narrowed statistic.  [zrec_u32]: the four integer fields fit u32 (proved for the writer's records
+   in the file theorem below). *)
+Theorem C07_zoom_record_codec : forall fp recs, Forall zrec_u32 recs ->
+  parse_zrecs false (length recs) (flat_map (zrec_bytes fp) recs) = map (zrec_read fp) recs.
+Proof. exact parse_zrecs_ok. Qed.
+Print Assumptions C07_zoom_record_codec.
+
+(* get_zoom_block_values on a block holding one uncompressed zoom section: the records passing the
+   reader's filter ([zkeep]: same chromosome id, s <= end, start <= e), narrowed, in order *)
+Theorem C07_zoom_block_read : forall infl i bs, h_big (i_hdr i) = false -> h_ubuf (i_hdr i) = 0 ->
+  forall fp b recs q s e,
+  slice bs (fst b) (N.to_nat (snd b)) = Some (flat_map (zrec_bytes fp) recs) -> Forall zrec_u32 recs ->
+  zoom_block_values infl i bs b q s e = Ok (Some (map (zrec_read fp) (filter (zkeep q s e) recs))).
+Proof. exact zoom_block_values_section. Qed.
+Print Assumptions C07_zoom_block_read.
+
+(* where a level lies: for every directory entry h written by write_zooms (single pass, with its
+   level skipping) resp. write_zoom_vals (two passes) there is a level z of the list handed to it
+   with h's resolution whose section bytes lie at zh_data h of the image, and whose index, written
+   by write_index over the sections placed from zh_data h, lies at zh_index h = zh_data h + data size
+   ([level_at], Proofs/ZoomReadRegions.v) *)
+Theorem C07_level_regions : forall o ds img zs pos lc zc bytes hdrs,
+  write_zooms_loop o ds pos zs lc zc = Ok (bytes, hdrs) -> has_at img pos bytes ->
+  Forall (level_at o img zs) hdrs.
+Proof. exact wzl_regions. Qed.
+Print Assumptions C07_level_regions.
+
+Theorem C07_level_regions_two_pass : forall o img zs pos bytes hdrs,
+  write_zooms_two_pass o pos zs = Ok (bytes, hdrs) -> has_at img pos bytes ->
+  Forall (level_at o img zs) hdrs.
+Proof. exact w2p_regions. Qed.
+Print Assumptions C07_level_regions_two_pass.
+
+(* THE FILE THEOREM.  For the bytes bs that bw_write returns on accepted input (C01's opts_ok /
+   input_ok, file < 2^64, resolutions < 2^32): read_info succeeds, and for EVERY resolution r of the
+   directory it read back, every chromosome c with data (a run (c, vs) of the input) and EVERY range
+   s e, get_zoom_interval (header -> directory lookup -> index header -> chromosome tree -> R-tree
+   search on the level's index bytes -> block reads -> record decode -> filter) returns exactly
+        map (zrec_read fp) (filter (ztouch s e) R),       R = concat (zs_out st)
+   where st is the final state of the writer's zoom accumulator on vs at resolution r with the id
+   the file gives c: R are the records characterised by C07_ordered_disjoint / C07_partition /
+   C07_stats / C07_contributions (vs is accepted: wf_vals len vs, r >= 1, so those theorems apply);
+   [ztouch s e z = (s <=? z_end z) && (z_start z <=? e)] is the reader's test — inclusive at both ends,
+   so a record that merely touches the range is returned too — and the reader does NOT clip zoom
+   records; statistics come back narrowed to f32 ([zrec_read], C07_zoom_record_codec), item count 0.
+   Records of other chromosomes are never returned.  Also for levels without any record (input of
+   zero-length values only: the empty index). *)
+Theorem C07_file_zoom_query : forall fp o sizes inp bs,
+  opts_ok o -> input_ok sizes inp -> Nlen bs < U64 ->
+  Forall (fun z => z < U32) (zoom_sizes_single o) ->
+  bw_write fp o sizes inp = Ok bs ->
+  exists i, read_info bs = Ok i /\
+    forall (infl : list N -> list N) r c vs s e, In r (map zh_res (i_zooms i)) -> In (c, vs) (runs inp) ->
+      exists id len st, chrom_id i c = Ok id /\ 1 <= r
+        /\ lookup c sizes = Some len /\ wf_vals len vs
+        /\ zoom_chrom fp (o_ips o) r id vs zstate0 = Ok st
+        /\ zoom_interval infl bs i c s e r
+           = Ok (map (zrec_read fp) (filter (ztouch s e) (concat (zs_out st)))).
+Proof. exact file_zoom_query_single. Qed.
+Print Assumptions C07_file_zoom_query.
+
+Theorem C07_file_zoom_query_two_pass : forall fp o sizes inp bs,
+  opts_ok o -> input_ok sizes inp -> Nlen bs < U64 -> manual_u32 o ->
+  bw_write_multipass fp o sizes inp = Ok bs ->
+  exists i, read_info bs = Ok i /\
+    forall (infl : list N -> list N) r c vs s e, In r (map zh_res (i_zooms i)) -> In (c, vs) (runs inp) ->
+      exists id len st, chrom_id i c = Ok id /\ 1 <= r
+        /\ lookup c sizes = Some len /\ wf_vals len vs
+        /\ zoom_chrom fp (o_ips o) r id vs zstate0 = Ok st
+        /\ zoom_interval infl bs i c s e r
+           = Ok (map (zrec_read fp) (filter (ztouch s e) (concat (zs_out st)))).
+Proof. exact file_zoom_query_two_pass. Qed.
+Print Assumptions C07_file_zoom_query_two_pass.
+
+(* what that answer contains: every record of the chromosome that intersects [s, e) is returned;
+   every returned record is the narrowing of a record of that chromosome touching the range; order,
+   spans and covered counts are those of the writer's list *)
+Theorem C07_file_zoom_query_complete : forall fp s e (R : list zrec),
+  let ans := map (zrec_read fp) (filter (ztouch s e) R) in
+  (forall z, In z R -> s < z_end z -> z_start z < e -> In (zrec_read fp z) ans)
+  /\ (forall z', In z' ans -> exists z, In z R /\ z' = zrec_read fp z /\ s <= z_end z /\ z_start z <= e)
+  /\ map (fun z => (z_chrom z, z_start z, z_end z, cov z)) ans
+     = map (fun z => (z_chrom z, z_start z, z_end z, cov z)) (filter (ztouch s e) R).
+Proof. exact zoom_answer_complete. Qed.
+Print Assumptions C07_file_zoom_query_complete.
+
 (* the loop as it was before the repair 9296bc5 violates the property on the design's witnesses *)
 Theorem C07_gap_refuted_before_fix :
   exists R, achrom_old false true ieee 10 0
@@ -285,4 +385,33 @@ Proof.
     split; [rewrite E; repeat constructor; unfold U32; lia|].
     split; [unfold manual_u32, ex_file_opts; cbn [o_manual]; repeat constructor; unfold U32; lia|].
     split; eexists; (split; [vm_compute; reflexivity|split; [reflexivity|vm_compute; reflexivity]]).
+Qed.
+
+(* ... and on that file (which meets every hypothesis of C07_file_zoom_query(_two_pass), see
+   C07_file_example_hyps) the reader model run on the bytes returns what the theorem says; the range
+   [14,30] touches record [12,14) at its end and record [30,31) at its start: both are returned
+   (the reader's test is inclusive), [15,29] returns nothing; sum 2*3.25 = 6.5, sumsq 21.125 as f32 patterns *)
+Example C07_file_zoom_example :
+  exists st, zoom_chrom ieee 2 10 0 ex_vals zstate0 = Ok st /\
+  forall w : bool,
+  match (if w then bw_write ieee ex_file_opts [([97], 40)] ex_file_inp
+         else bw_write_multipass ieee ex_file_opts [([97], 40)] ex_file_inp) with
+  | Ok bs =>
+      match read_info bs with
+      | Ok i =>
+          zoom_interval (fun x => x) bs i [97] 14 30 10
+            = Ok (map (zrec_read ieee) (filter (ztouch 14 30) (concat (zs_out st))))
+          /\ zoom_interval (fun x => x) bs i [97] 15 29 10 = Ok []
+          /\ match zoom_interval (fun x => x) bs i [97] 14 30 10 with
+             | Ok l => map (fun z => (z_chrom z, z_start z, z_end z, cov z, su_items (z_sum z),
+                                      bits_of_f32 (su_sum (z_sum z)), bits_of_f32 (su_sumsq (z_sum z)))) l
+                       = [(0, 12, 14, 2, 0, 1087373312, 1101594624); (0, 30, 31, 1, 0, 3212836864, 1065353216)]
+             | _ => False
+             end
+      | _ => False
+      end
+  | _ => False
+  end.
+Proof.
+  eexists. split; [vm_compute; reflexivity|]. intros [|]; vm_compute; repeat split; reflexivity.
 Qed.
